@@ -48,6 +48,7 @@ M = [
  ('a unix address naming no socket is skipped', 'C09', "address list 'unix:runtime=y;unix:path=/t/b': UnboundLocalError out of getDBusEndpoints, the second, reachable address is never tried"),
  ('every disconnect callback runs even when one of them cancels itself', 'C09', "three disconnect callbacks registered, the first cancels its own registration while it runs, the connection is lost: the second callback never runs (connection-level and proxy-level lists alike)"),
  ('every caller waiting on a shared Deferred gets its result', 'C10', "an exported method returns ONE Deferred to two concurrent calls and the Deferred fires with a value: the second caller gets org.txdbus.PythonException.MarshallingError instead of the value"),
+ ('known header fields hold values of the wrong kind is rejected', 'C05', "a peer of the built-in bus sends a well-framed call for another client whose MEMBER header field is an array of strings (or INTERFACE a boolean ...): the bus forwards it, the addressed client's dataReceived raises TypeError (unhashable type: 'list') and that client - not the sender - loses its connection"),
  ('RequestName queues a requester', 'C13', 'request without the replace flag refused instead of queued; a waiting client requesting again queued twice'),
  ('waiting for a name leaves the queue', 'C13', 'ReleaseName by a queued client answered NOT_OWNER and left it queued; a queued client that disconnected later became a dead owner'),
 ]
